@@ -65,7 +65,11 @@ deriving Repr, Inhabited
 /-- one executor (`registry[owner, group]`): the wrappers in call order -/
 abbrev Exec := List Entry
 
-def seen (ex : Exec) (k : Key) : Bool := ex.any (·.key == k)
+/-- `items_already_seen`: the key together with the expected guard value — `cond="x"` and `unless="x"` on one
+transition are two guards (since the repair of D32; before it the key alone, and the second entry was lost) -/
+def Entry.dk (e : Entry) : Key × Bool := (e.key, e.expected)
+
+def seen (ex : Exec) (k : Key × Bool) : Bool := ex.any (·.dk == k)
 
 /-- `bisect.insort` (= `insort_right`) on `CallbackWrapper.__lt__` (priority): after every entry whose
 priority is not greater -/
@@ -74,7 +78,7 @@ def insort (e : Entry) : Exec → Exec
   | x :: xs => if e.prio < x.prio then e :: x :: xs else x :: insort e xs
 
 /-- `CallbacksExecutor.add`: ignored when the key was already seen -/
-def add (ex : Exec) (e : Entry) : Exec := if seen ex e.key then ex else insort e ex
+def add (ex : Exec) (e : Entry) : Exec := if seen ex e.dk then ex else insort e ex
 
 /-- `Listeners.build(spec)`: one (key, callback) per provider that has the attribute, in provider
 order; a callable spec yields itself, independent of the providers -/
